@@ -165,8 +165,11 @@ impl ExprStream {
             return gexpr::component_repetition(&mut rng);
         }
         let mut rng = Rng::derive(self.seed, "expr-shape", i as u64);
-        if i % 3 == 2 {
-            return gexpr::root_position_shape(&mut rng);
+        match i % 12 {
+            2 | 5 | 8 => return gexpr::root_position_shape(&mut rng),
+            11 => return gexpr::nested_semantic(&mut rng),
+            7 => return gexpr::nested_repetition_edges(&mut rng),
+            _ => {},
         }
         gexpr::branch_shapes(&mut rng, 1).pop().unwrap_or_default()
     }
